@@ -17,6 +17,8 @@ type ExecMode struct {
 	DirFaults bool // directive err/null(/panic)
 	Scheds    bool // gated schedules (C06)
 	IntFaults bool // field / root-field interceptor err/panic
+	ArgFaults bool // failing / panicking input unmarshaler in arguments
+	HTTP      bool // run through handler.Server + POST transport; allows marshal-time panics (Boom = "panic")
 	Mutations bool // include mutation operations
 	Defer     bool // @defer in operations (C13 uses its own trace module)
 	Module    string
@@ -89,7 +91,7 @@ func derivePlan(s *SchemaJ, base *ur.Result, r *rand.Rand, m ExecMode, intensity
 				opts = append(opts, "ty", "ty")
 			}
 			if kinds == "" || kinds == "P" {
-				if s.IsLeaf(gqlName(s, basen)) || basen == "string" || basen == "int" || basen == "bool" {
+				if s.IsLeaf(gqlName(s, basen)) || basen == "string" || basen == "int" || basen == "bool" || basen == "Boom" {
 					opts = append(opts, "val")
 				}
 			}
@@ -104,7 +106,11 @@ func derivePlan(s *SchemaJ, base *ur.Result, r *rand.Rand, m ExecMode, intensity
 					plan[ev.P] = ur.Outcome{K: "obj", Ty: poss[r.Intn(len(poss))]}
 				}
 			case "val":
-				plan[ev.P] = ur.Outcome{K: "val", V: valFor(basen, r)}
+				vb := basen
+				if basen == "Boom" && m.HTTP {
+					vb = "Boom!"
+				}
+				plan[ev.P] = ur.Outcome{K: "val", V: valFor(vb, r)}
 			default:
 				plan[ev.P] = ur.Outcome{K: k}
 			}
@@ -151,6 +157,10 @@ func valFor(base string, r *rand.Rand) string {
 		return []string{"true", "false"}[r.Intn(2)]
 	case "Color":
 		return []string{"RED", "GREEN", "BLUE"}[r.Intn(3)]
+	case "Boom!":
+		return []string{"ok", "panic", "panic"}[r.Intn(3)]
+	case "Boom":
+		return "fine"
 	}
 	return []string{"x", "", "a\"b", "ünï", "line\nbreak", "\\"}[r.Intn(6)]
 }
@@ -185,6 +195,9 @@ func fillElems(s *SchemaJ, plan map[string]ur.Outcome, p, kinds, base string, n 
 		plainFields(s, plan, ep, tn, r, intensity, 1)
 	}
 }
+
+// boomPanics: plans may make the custom scalar Boom panic while being marshalled (HTTP mode only).
+var boomPanics bool
 
 // plainFields assigns outcomes to struct-bound fields (value paths) of object type tn.
 func plainFields(s *SchemaJ, plan map[string]ur.Outcome, vp, tn string, r *rand.Rand, intensity, depth int) {
@@ -234,6 +247,10 @@ func plainFields(s *SchemaJ, plan map[string]ur.Outcome, vp, tn string, r *rand.
 				plan[fp] = ur.Outcome{K: "val", V: []string{"true", "false"}[r.Intn(2)]}
 			case "String", "ID":
 				plan[fp] = ur.Outcome{K: "val", V: valFor("string", r)}
+			case "Boom":
+				if boomPanics {
+					plan[fp] = ur.Outcome{K: "val", V: valFor("Boom!", r)}
+				}
 			default:
 				if s.Types[f.Name].Kind == "ENUM" {
 					plan[fp] = ur.Outcome{K: "val", V: valFor(f.Name, r)}
@@ -273,6 +290,7 @@ func ExecConformance(c *Check, prop string, bins map[string]string, vs []Variant
 	if m.Lines == nil {
 		m.Lines = TraceLines
 	}
+	boomPanics = m.HTTP
 	if m.PlansPer == 0 {
 		m.PlansPer = 4
 	}
@@ -291,7 +309,7 @@ func ExecConformance(c *Check, prop string, bins map[string]string, vs []Variant
 		if m.Mutations && i%4 == 3 {
 			kind = "mutation"
 		}
-		op := GenOp(schema, r, GenOpts{Depth: 1 + r.Intn(3), MaxFields: 2 + r.Intn(4), Skip: true, Frags: true, Kind: kind,
+		op := GenOp(schema, r, GenOpts{Depth: 1 + r.Intn(3), MaxFields: 2 + r.Intn(4), Skip: true, Frags: true, Kind: kind, ArgFaults: m.ArgFaults,
 			Defer: m.Defer, Avoid: []string{"withArgs", "argd", "arg", "mat"}})
 		q := op.Render()
 		base = append(base, &Scenario{ID: fmt.Sprintf("%s-op%d", prop, i), Op: op, Query: q, Vars: op.Vars, Variant: vs[0].ID()})
@@ -304,6 +322,11 @@ func ExecConformance(c *Check, prop string, bins map[string]string, vs []Variant
 			cp := *cs
 			cp.Variant = vs[0].ID()
 			base = append(base, &cp)
+		}
+	}
+	if m.HTTP {
+		for _, b := range base {
+			b.Mode = "http"
 		}
 	}
 	if err := RunScenarios(first, base, m.Procs, m.Env); err != nil {
@@ -328,6 +351,9 @@ func ExecConformance(c *Check, prop string, bins map[string]string, vs []Variant
 			}
 			plan, dplan := derivePlan(schema, b.Result, r, m, intensity)
 			sc := &Scenario{ID: fmt.Sprintf("%s-p%d", b.ID, k), Op: b.Op, Query: b.Query, Vars: b.Vars, Plan: plan, DirPlan: dplan}
+			if m.HTTP {
+				sc.Mode = "http"
+			}
 			templ = append(templ, sc)
 		}
 	}
